@@ -47,11 +47,17 @@ func (authenticator *CertificateAuthenticator) Authenticate(conn Conn) (bool, er
 	if !ok {
 		return false, nil
 	}
-	for _, cert := range conState.PeerCertificates {
-		if 0 < len(authenticator.commonName) {
-			if cert.Subject.CommonName == authenticator.commonName {
-				return true, nil
-			}
+	// Only the first certificate is the client's own (leaf) certificate: the others are the issuers' chain.
+	if len(conState.PeerCertificates) == 0 {
+		return false, nil
+	}
+	cert := conState.PeerCertificates[0]
+	if cert == nil {
+		return false, nil
+	}
+	if 0 < len(authenticator.commonName) {
+		if cert.Subject.CommonName == authenticator.commonName {
+			return true, nil
 		}
 	}
 	return false, nil
